@@ -277,6 +277,7 @@ class Sim:
         self.preempt_q = preempt_q
         self.quiescent_hits = 0
         self.fs = None
+        self.on_hang = None
         self._main = None
 
     # ------------------------------------------------------------------
@@ -393,6 +394,8 @@ class Sim:
             if not sleepers:
                 self.hangs.append({"step": self.steps, "fired": t.name,
                                    "waiting_on": t.blocked_on[0], "state": self.describe_blocked()})
+                if self.on_hang is not None:
+                    self.on_hang(self)
         self.now = max(self.now, t.deadline)
         t.timed_out = True
         t.blocked_on = None
